@@ -172,3 +172,10 @@ Proof.
   assert (Hc : (0 <=? 0) && (0 <=? Z.of_nat (length t)) = true) by lia. rewrite Hc. f_equal.
   apply slice_full.
 Qed.
+
+(* a text that is already in formatted form: the round trip and idempotence hold on it *)
+Lemma roundtrip_on_formatted letter digit t f :
+  parse_text letter digit t = ParseOk f -> format_text letter digit t f = FOk t ->
+  exists f', parse_text letter digit t = ParseOk f' /\ sem t f' = sem t f /\ gaps t f' = gaps t f /\
+             format_text letter digit t f' = FOk t.
+Proof. intros Hp Hf. exists f. auto. Qed.
